@@ -307,11 +307,21 @@ def main():
                         "the field does not change during the call",
                         "sample range convention [s,e) = [fs*spf,(fe+1)*spf-1) is taken from the code; the property text fixes only the defaults"]
     try:
-        impl = vlib.build_impl()
-        exe = vlib.build_harness(impl, os.path.join(vlib.VERIF, "harness/C19/framenum.c"))
+        for attempt in range(3):
+            try:
+                impl = vlib.build_impl()
+                exe0 = vlib.build_harness(impl, os.path.join(vlib.VERIF, "harness/C19/framenum.c"))
+                # run from a private copy: vlib prunes old impl-* builds while other checks run (the binary is static)
+                exe = os.path.join(vlib.scratch("C19-bin-"), "framenum")
+                import shutil
+                shutil.copy(exe0, exe)
+                break
+            except (vlib.BuildError, OSError):
+                if attempt == 2:
+                    raise
         ok, log = vlib.coq_make(["C19/Framenum.vo"])
         drv = vlib.build_ocaml_driver("C19", "C19/Extract.v", "ocaml/C19/driver.ml") if ok else None
-    except vlib.BuildError as e:
+    except (vlib.BuildError, OSError) as e:
         chk.violation("build", "build failed: " + str(e)[:2000], {"kind": "build", "log": str(e)}, found=False)
         return chk.finish()
     if drv is None:
@@ -472,12 +482,11 @@ def main():
     found_any = False
     for key, l in sorted(spec_bad.items()):
         i = l[0]
-        found_any = True
         spec = spec_answer(*Q[i][2:])
-        chk.violation(key, "gd_framenum_subset64(%s, %r, %d, %d) on a %s field (spf %d): library %s, the property demands %s (%d such calls)" % (
+        found_any |= bool(chk.violation(key, "gd_framenum_subset64(%s, %r, %d, %d) on a %s field (spf %d): library %s, the property demands %s (%d such calls)" % (
             Q[i][1], Q[i][6], Q[i][7], Q[i][8], "strictly monotone" if spec[0] == "ok" else "constant/empty", Q[i][3], I[i],
             ("%s = %.17g" % (spec[1], float(spec[1]))) if spec[0] == "ok" else "GD_E_DOMAIN or GD_E_RANGE", len(l)),
-            replay_of(i, {"kind": "impl-vs-spec", "spec": str(spec), "count": len(l)}))
+            replay_of(i, {"kind": "impl-vs-spec", "spec": str(spec), "count": len(l)})))
     for i in model_bad[:3]:
         spec = spec_answer(*Q[i][2:])
         if spec is not None and not agree(I[i], spec, EX[i], 1):
